@@ -35,6 +35,7 @@ class SessState:
 
 class C25Service(Protocol):
     def open_s(self, ttl: int, tag: str) -> int: ...
+    def open_x(self, mode: int, ttl_value: int, tag: str) -> int: ...
     def use(self, x: int) -> str: ...
     def use_close(self, x: int) -> str: ...
 
@@ -46,6 +47,17 @@ class C25Impl:
     def open_s(self, ttl: int, tag: str, ctx: CallContext) -> int:
         LOG.append((self.worker, "open_s", None, None))
         ctx.open_session(SessState(tag), ttl=float(ttl))
+        return 0
+
+    def open_x(self, mode: int, ttl_value: int, tag: str, ctx: CallContext) -> int:
+        """Per-call TTL shapes: mode 0 = ttl omitted (None), 1 = float(ttl_value / 1000), 2 = int ttl_value (seconds)."""
+        LOG.append((self.worker, "open_x", None, None))
+        if mode == 0:
+            ctx.open_session(SessState(tag))
+        elif mode == 1:
+            ctx.open_session(SessState(tag), ttl=ttl_value / 1000.0)
+        else:
+            ctx.open_session(SessState(tag), ttl=ttl_value)  # type: ignore[arg-type]
         return 0
 
     def use(self, x: int, ctx: CallContext) -> str:
@@ -145,6 +157,7 @@ class Worker:
         self.name = name
         self.server_id = server_id
         self.key = key
+        self.default_ttl = default_ttl
         self.server = RpcServer(C25Service, C25Impl(name), server_id=server_id)
         self.app = make_wsgi_app(
             self.server, prefix="", enable_sticky=True, sticky_default_ttl=default_ttl, token_key=key, authenticate=authenticate,
@@ -155,4 +168,4 @@ class Worker:
         # an unstarted real reaper in the slot keeps _ensure_reaper from starting a free-running one
         self.mw._reaper = _sticky._ReaperThread(self.registry, tick_seconds=1.0)
         self.client = falcon.testing.TestClient(self.app)
-        self.schemas = {m: self.server._methods[m].params_schema for m in ("open_s", "use", "use_close")}
+        self.schemas = {m: self.server._methods[m].params_schema for m in ("open_s", "open_x", "use", "use_close")}
